@@ -83,7 +83,16 @@ func (c *webRTCConn) SetWriteDeadline(t time.Time) error {
 	return fmt.Errorf("SetWriteDeadline not implemented")
 }
 
-func remoteIPFromSDP(str string) net.IP {
+func remoteIPFromSDP(str string) (ip net.IP) {
+	// The SDP parser (pion/sdp v3.0.5) panics on some malformed input, e.g.
+	// an "r=" line with fewer than two fields. Treat that like any other
+	// parse error.
+	defer func() {
+		if r := recover(); r != nil {
+			log.Println("Error parsing SDP: ", r)
+			ip = nil
+		}
+	}()
 	// Look for remote IP in "a=candidate" attribute fields
 	// https://tools.ietf.org/html/rfc5245#section-15.1
 	var desc sdp.SessionDescription
